@@ -61,6 +61,7 @@ impl Parse for Expr {
                         ]),
                         &mut balanced_pair(punct('|'), punct('|')),
                         &mut cast,
+                        &mut arrow_ty,
                         &mut token_tree,
                     ]),
                     punct(','),
@@ -124,28 +125,61 @@ pub fn punct(p: char) -> impl FnMut(Cursor<'_>) -> ParsingResult<'_> {
     }
 }
 
-/// Tries to parse an `as` cast along with the path of its type, so the generic arguments of the
-/// type (`x as M<K, V>`) are consumed as a whole, like Rust itself does.
+/// Tries to parse an `as` cast along with its type, so the generic arguments of the type
+/// (`x as M<K, V>`, `x as fn(A) -> M<K, V>`) are consumed as a whole, like Rust itself does.
 pub fn cast(c: Cursor<'_>) -> ParsingResult<'_> {
-    let (kw, mut c) = c.ident().filter(|(ident, _)| ident == "as")?;
+    let (kw, c) = c.ident().filter(|(ident, _)| ident == "as")?;
+    let (ty, c) = type_tail(c);
     let mut out = kw.into_token_stream();
+    out.extend(ty);
+    Some((out, c))
+}
+
+/// Tries to parse a `->` along with the type following it (the return type of a closure:
+/// `|x| -> M<K, V> { .. }`), so the generic arguments of the type are consumed as a whole.
+pub fn arrow_ty(c: Cursor<'_>) -> ParsingResult<'_> {
+    let (arrow, c) = arrow(c)?;
+    let (ty, c) = type_tail(c);
+    let mut out = arrow;
+    out.extend(ty);
+    Some((out, c))
+}
+
+/// Tries to parse a `->`.
+fn arrow(c: Cursor<'_>) -> ParsingResult<'_> {
+    seq([
+        &mut punct_with_spacing('-', Spacing::Joint),
+        &mut punct('>'),
+    ])(c)
+}
+
+/// Consumes the tokens of a type: path segments with their generic arguments, references,
+/// pointers, lifetimes, and the argument list and return type of a `fn` pointer.
+fn type_tail(mut c: Cursor<'_>) -> (TokenStream, Cursor<'_>) {
+    let mut out = TokenStream::new();
 
     while let Some((stream, cursor)) = alt([
         &mut path_sep,
         &mut balanced_pair(punct('<'), punct('>')),
+        &mut arrow,
         &mut punct('&'),
         &mut punct('*'),
         &mut |c: Cursor<'_>| {
             c.lifetime().map(|(lt, c)| (lt.into_token_stream(), c))
         },
         &mut |c: Cursor<'_>| c.ident().map(|(i, c)| (i.into_token_stream(), c)),
+        &mut |c: Cursor<'_>| {
+            c.group(proc_macro2::Delimiter::Parenthesis)
+                .and_then(|_| c.token_tree())
+                .map(|(tt, c)| (tt.into_token_stream(), c))
+        },
     ])(c)
     {
         out.extend(stream);
         c = cursor;
     }
 
-    Some((out, c))
+    (out, c)
 }
 
 /// Tries to parse any [`TokenTree`].
